@@ -64,6 +64,13 @@ def w_ignore(arg):
         obs = pipeline.observe_format(ann, case.get("options"), want=("rule", "direct", "sched"))
         if obs["crash"]:
             res["crashed"] += 1
+            # the same module without the annotation formats fine: the opt-out comment itself makes the formatter fail, and the line is not carried over to anything
+            plain = pipeline.observe_format(text, case.get("options"), want=("rule",))
+            if not plain["crash"] and len(res["violations"]) < 80:
+                res["violations"].append({
+                    "kind": "formatter_fails_only_with_the_ignore_comment", "rule": (obs["crash"] or {}).get("rule"), "input": ann,
+                    "detail": {"crash": {k: (obs["crash"] or {}).get(k) for k in ("exc", "msg", "rule")}, "lines": marked, "options": case.get("options")},
+                    "replay": {"fn": "harness.checks.c20:w_ignore", "arg": {"cases": [case]}}})
             continue
         res["cases"] += 1
         out = obs["out"]
